@@ -1,5 +1,6 @@
 """C09 — fragment reassembly. Domain `frag`."""
-import itertools, random
+import itertools
+import vlib, random
 
 ID = "C09"
 GEN_FILES = ["FragConsts.v"]
@@ -193,10 +194,32 @@ def veclimit_case():
     return "big " + ";".join(evs)
 
 
+def at_limit_cases():
+    """exactly at the slot-table limit (100000 fragments) and one below, with the header last and with the header in the
+    middle: continuations that arrive before their header are kept and placed when it comes"""
+    out = []
+    for n in (100000, 99999):
+        conts = ["A 4 %d 01" % k for k in range(n - 1, 0, -1)]
+        out.append("big " + ";".join(conts + ["S 4 %d - 00" % n]))
+        out.append("big " + ";".join(conts[:7] + ["S 4 %d - 00" % n] + conts[7:]))
+    return out
+
+
 def run(ctx):
     rng = ctx.rng
     cases = corpus()
     cases.append(veclimit_case())
+    # at the slot-table limit the list-based model needs minutes per case: these four go to the implementation and the
+    # spec oracle only
+    big = at_limit_cases()
+    outs = vlib.run_lines(vlib.HARNESS_BIN, "frag", big, shards=len(big))
+    for c, o in zip(big, outs):
+        ctx.evaluations += 1
+        r = oracle(c, o)
+        if r is not None and r[0] == "known" and r[1] == "C09-order":
+            ctx.known_hits["C09-order"] += 1
+        elif r is not None:
+            ctx.violations.append(("frag", c[:400] + " ...", o[:200], r[1] if r[0] == "violation" else "unexpected verdict %s" % (r,)))
     nmax = 4 if ctx.tier == "quick" else 6
     for n in range(1, nmax + 1):
         cases.extend(exhaustive_perms(n, with_dup=(n <= (3 if ctx.tier == "quick" else 4))))
